@@ -39,6 +39,12 @@ def run(ck, prog, ctx):
     ck.rule("ROLE", "role provenance at contract sites (DESIGN 3.4)")
     pv = Prov(prog)
 
+    # ------------------------------------------------------------------ ZIP: the slot table is (re)built from EVERY term
+    # (a hand-written Clone / rebuild that pairs slots with terms by `zip` must not be one short on either side)
+    ck.rule("ZIP", "both sides of a zip have the same affine length in the arena's collection lengths (ZIPLEN)")
+    from engines import check_zip_lengths as _czl
+    ck.extra["zips with computable lengths in the arena / ontology code"] = _czl(ck, "ZIP", prog, [b for b in prog.production() if (b.file or "") in ("src/ontology/termarena.rs", "src/ontology.rs")], "the arena's terms / slots")
+
     # ------------------------------------------------------------------ PANIC
     entries = []
     for e in ENTRY:
